@@ -67,6 +67,9 @@ POOL = [
     ("void fac{i}(auto const x, const auto *y);", 0),
     ("void fap{i}(auto x, auto y);", 0),
     ("static inline constexpr volatile int spec{i} = 0;", 0),
+    ("int pcb{i}; /* remark {i} */", 0),
+    ("int pcl{i}; // remark {i}", 0),
+    ("enum PE{i} {{ PA{i}, /* remark */\n PB{i} }};", 0),
 ]
 CLASS_POOL = [
     ("int a{i};", 0), ("static const int b{i} = 1;", 0), ("void f{i}() const;", 0), ("K();", 0), ("~K() {{}}", 0), ("virtual void v{i}() = 0;", 0),
@@ -76,6 +79,7 @@ CLASS_POOL = [
     ("operator int();", 0), ("int bf{i} : 3;", 0), ("/// doc {i}\nint doc{i};", 0), ("[[nodiscard]] int at{i}();", 0), ("K(const K&) = delete;", 0),
     ("int l{i} = 1, m{i} {{2}};", 0), ("typedef struct {{ int t; }} TS{i};", 1),
     ("void mac{i}(auto volatile x) const;", 0), ("void map{i}(auto x);", 0), ("mutable int mu{i};", 0), ("explicit K(int e{i});", 0),
+    ("int pcb{i}; /* remark {i} */", 0), ("int pcl{i}; // remark {i}", 0),
 ]
 CTX = [("global", "{X}"), ("namespace", "namespace W {{\n{X}\n}}"), ("extern", "extern \"C++\" {{\n{X}\n}}"), ("nested-ns", "namespace W::V {{\n{X}\n}} int tail;")]
 CLASS_CTX = [("struct", "struct K {{\n{X}\n}};"), ("class", "class K {{\n{X}\n}};"), ("nested", "namespace W {{ struct O {{ private: struct K {{\n{X}\n}}; int o; }}; }}")]
